@@ -30,7 +30,7 @@ func (t *ttlRdsCache) Set(ctx context.Context, key string, value []byte, fns ...
 	}
 	key = t.key(key)
 	if o.mustNotExist {
-		var ok, err = t.cmd.SetNX(ctx, key, value, time.Duration(o.ttl)).Result()
+		var ok, err = t.cmd.SetNX(ctx, key, value, expiration(o.ttl)).Result()
 		if err != nil {
 			return err
 		}
@@ -39,7 +39,7 @@ func (t *ttlRdsCache) Set(ctx context.Context, key string, value []byte, fns ...
 		}
 		return nil
 	}
-	var ex = time.Duration(o.ttl)
+	var ex = expiration(o.ttl)
 	if o.keepTTL {
 		ex = redis.KeepTTL
 	}
@@ -65,7 +65,7 @@ func (t *ttlRdsCache) Get(ctx context.Context, key string, fns ...GetOptFn) ([]b
 		return nil, err
 	}
 	if o.updateTTL {
-		err = t.cmd.Expire(ctx, key, time.Duration(o.ttl)).Err()
+		err = t.cmd.Expire(ctx, key, time.Duration(o.ttl)*time.Second).Err()
 		if err != nil {
 			return nil, err
 		}
@@ -94,6 +94,15 @@ func (t *ttlRdsCache) Clear(ctx context.Context) {
 			return
 		}
 	}
+}
+
+// expiration converts a ttl in seconds into the duration go-redis expects;
+// ttl <= 0 means no expiry, as in the in-memory cache.
+func expiration(ttl int64) time.Duration {
+	if ttl <= 0 {
+		return 0
+	}
+	return time.Duration(ttl) * time.Second
 }
 
 func (t *ttlRdsCache) key(k string) string {
